@@ -257,6 +257,11 @@ def run_listed(mcv):
     if ev["model"] != "O":
         for k, st in enumerate(states):
             _run_listed_once(chk, build, ev, sp, mcv, 3 + k, res, state=st)
+    elif mcv in ("OF[", "OF]", "OU[", "OU]"):
+        # the library writes its flush markers wherever the buffer fills or ovni_flush is called, also while
+        # the thread is paused, cooling or warming; sorting regions are ignored in every state
+        for k, st in enumerate(["cooling", "warming", "paused"]):
+            _run_listed_once(chk, build, ev, sp, mcv, 3 + k, res, state=st)
     return res
 
 
